@@ -134,6 +134,12 @@ pub fn check_zone_instant(z: &ZoneInfo, secs: i64, nanos: u32, digits: usize) ->
         Ok(t) => t,
         Err(f) => return prefix_sig("C06:zinc", f, z.id),
     };
+    {
+        let r = zinc_encode_short_writes(&hv, &text);
+        if r.is_fail() {
+            return prefix_sig("C06:zinc", r, z.id);
+        }
+    }
     match zinc_decode(&text) {
         Ok(back) => {
             let v = diff_verdict("C06:zinc", &rv, &project(&back), &text, &mut rec);
